@@ -45,8 +45,10 @@ LEVEL_TEXT = ('All comparison chains of length 1-2 over the 10 comparison operat
               'with logging operands over an object alphabet incl. nan and rich-compare objects returning non-bool/raising, typed '
               'chains over a table of C/Python operand type combinations, membership tests against every literal tuple/list/set '
               'display of <= 3 mixed-type members (and typed constants incl. duplicates), and every if/elif layout of <= 3 arms '
-              '(thorough 4) over a pool of switchable conditions with overlapping/duplicate/out-of-range constants, with '
-              'use_switch on and off; selected arm, result, exception type and the ordered evaluation log must equal CPython.')
+              '(thorough 4) over a pool of switchable conditions with overlapping/duplicate/out-of-range constants (subjects: '
+              'typed locals and C-typed attributes of one / two cdef-class objects), every ordered pair of multi-digit Python '
+              'ints differing in one 30-bit digit, sign or digit count and int/float boundary pairs for object/int/float '
+              'operands, with use_switch on and off; selected arm, result, exception type and the ordered evaluation log must equal CPython.')
 LEVEL_NOTE = ('`is`/`is not` only with Python-object operands (identity of C values is not defined).  C-typed operands only '
               'receive representable values (a C int tested against a bytes literal only gets 0..255); typed str/bytes leaves do '
               'not receive None; int-vs-Py_UCS4 comparisons (C semantics by typing) are not enumerated.  Enum-typed switch subjects need .pyx and are not enumerated.  Trusted: CPython '
